@@ -17,6 +17,8 @@ type TreeJSON struct {
 	Corrupt  []string   `json:"corrupt"`
 	V2       []bool     `json:"v2"`    // block carries v2 data
 	Valid    []bool     `json:"valid"` // whole chain genesis..block is valid
+	Alias    []int      `json:"alias"` // the node whose block ID the node shares (itself unless an ID twin)
+	Twins    [][]int    `json:"twins"` // per node: the ID twins of it
 }
 
 type EffJSON struct {
@@ -74,6 +76,7 @@ func (t *Tree) Abstract() (TreeJSON, *Names) {
 		tj.Corrupt = append(tj.Corrupt, nd.Corrupt)
 		tj.V2 = append(tj.V2, nd.Block.V2 != nil)
 		tj.Valid = append(tj.Valid, nd.ValidChain)
+		tj.Alias = append(tj.Alias, nd.Alias)
 		if int(nd.Height) > maxH {
 			maxH = int(nd.Height)
 		}
@@ -105,6 +108,15 @@ func (t *Tree) Abstract() (TreeJSON, *Names) {
 		tj.Eff = append(tj.Eff, ej)
 	}
 	tj.MaxH = maxH + 1
+	tj.Twins = make([][]int, n)
+	for i := range tj.Twins {
+		tj.Twins[i] = []int{}
+	}
+	for _, nd := range t.Nodes {
+		if nd.Alias != nd.ID {
+			tj.Twins[nd.Alias-1] = append(tj.Twins[nd.Alias-1], nd.ID)
+		}
+	}
 	tj.Heavier = make([][]bool, n)
 	for i := range tj.Heavier {
 		tj.Heavier[i] = make([]bool, n)
